@@ -211,7 +211,7 @@ Definition insert_doc (c : coll) (d : value) : coll * res value :=
   | VDoc fs =>
       let '(c0, fs1, id) :=
         match assoc "_id" fs with
-        | Some i => (c, fs, i)
+        | Some i => (c, fs, patch i)          (* the store key is the normalised _id *)
         | None => (mkColl (docs c) (idx c) (forced c) (next_oid c + 1) (now c) (odocs c),
                    fs ++ [("_id", VOid (next_oid c))], VOid (next_oid c))
         end in
@@ -388,12 +388,13 @@ Fixpoint update_loop (c : coll) (spec update : value) (multi : bool) (todo : lis
                 | Some _ =>
                     let c1 := with_docs c (store_set k d' (docs c)) in
                     match ensure_uniques c1 d' with
-                    | Err EDup =>
+                    | Err EUnmodelled => (c1, Err EUnmodelled)
+                    | Err e =>
+                        (* rollback whenever the uniqueness check fails *)
                         (match expire c1 with
-                         | Ok c2 => (with_docs c2 (store_set k d (docs c2)), Err EDup)
-                         | Err _ => (c, Err EDup)
+                         | Ok c2 => (with_docs c2 (store_set k d (docs c2)), Err e)
+                         | Err _ => (c, Err e)
                          end)
-                    | Err e => (c1, Err e)
                     | Ok touched =>
                         match expire_if touched c1 with
                         | Err e => (c1, Err e)
